@@ -96,8 +96,10 @@ theorem code_lt (a : AttrC) : a.code < 256 := by
   | typed _ t => exact typedCode_lt t
   | path _ as4 _ => cases as4 <;> simp [AttrC.code]
   | raw _ tc _ => exact tc.toNat_lt
-  | reach _ _ _ _ => simp [AttrC.code]
+  | reach _ _ _ _ _ => simp [AttrC.code]
   | unreach _ _ _ => simp [AttrC.code]
+  | reachU _ _ _ _ _ => simp [AttrC.code]
+  | unreachU _ _ _ => simp [AttrC.code]
 
 theorem code_toNat (a : AttrC) : (UInt8.ofNat a.code).toNat = a.code := by
   have := a.code_lt
@@ -150,7 +152,7 @@ theorem attr_spec (cfg : Cfg) (a : AttrC) (hk : a.kindOk cfg) :
   | raw fl tc v =>
     simp only [AttrC.ownedT, AttrC.code]
     exact ⟨by simp [AttrC.valueD, AttrC.value], validate_none _ _ _ hk.1⟩
-  | reach fl f nh nlri =>
+  | reach fl f nh rsv nlri =>
     obtain ⟨b, hb, _⟩ := nlris_reported f (cfg.rx (famCode f)) nlri hk.1
     simp only [AttrC.ownedT, AttrC.code]
     exact ⟨by simp [AttrC.valueD, AttrC.value, hb], by simp [validate]⟩
@@ -158,6 +160,12 @@ theorem attr_spec (cfg : Cfg) (a : AttrC) (hk : a.kindOk cfg) :
     obtain ⟨b, hb, _⟩ := nlris_reported f (cfg.rx (famCode f)) nlri hk
     simp only [AttrC.ownedT, AttrC.code]
     exact ⟨by simp [AttrC.valueD, AttrC.value, hb], by simp [validate]⟩
+  | reachU fl k nh rsv body =>
+    simp only [AttrC.ownedT, AttrC.code]
+    exact ⟨by simp [AttrC.valueD, AttrC.value], by simp [validate]⟩
+  | unreachU fl k body =>
+    simp only [AttrC.ownedT, AttrC.code]
+    exact ⟨by simp [AttrC.valueD, AttrC.value], by simp [validate]⟩
 
 /-- what `path_attributes()` yields for the attribute and what `to_owned()` makes of it -/
 theorem attr_reported (cfg : Cfg) (a : AttrC) (hk : a.kindOk cfg) :
